@@ -40,7 +40,7 @@ EXPECT = [
     ('apply the TCPCL authentication policy to a TLS peer without certificate', ['C15']),
     ('require a matching host identifier', ['C15']),
     ('assign block numbers on the block itself', ['C11']),
-    ('encode the SSP of a dtn EID as written', ['C08']),
+    ('encode the SSP of a dtn EID as written', ['C11', 'C08']),
     ('fail the CRC check of a block that carries surplus', ['C08']),
     ('transmit the incremented hop count', ['C11']),
     ('remove every received Previous Node', ['C11']),
@@ -58,6 +58,7 @@ EXPECT = [
     ('keep the primary block of a received bundle when it is sent as fragments', ['C05']),
     ('check block CRCs over the octets that were received', ['C08']),
     ('close a terminating TCPCL session after its last queued transfer was cancelled', ['C09']),
+    ('refuse a security block without targets or with mismatched results', ['C12']),
     ('restart the BTP-U receive timeout', ['C20']),
     ('send BTP-U frames on the listening socket', ['C20']),
 ]
